@@ -1,6 +1,7 @@
 """C01 - every lint run returns a complete, well-formed result set."""
 import json, os
 import vlib
+from checks import execcommon
 
 ASSUME = ['zcrypto / x-crypto parsers decide what is parseable (run under recover)',
           'a lint run that takes more than 20 s is counted as a hang']
@@ -22,6 +23,14 @@ def run(ctx):
         key = 'model-replay:%s:%s' % (c['kind'], m['Why'].split(' of ')[0])
         vlib.report(ctx, key, 'Lint*Ex on mock lints differs from Run.tla: %s (case %s, got %s)' % (m['Why'], json.dumps(c), json.dumps(m['Got'])),
                     dict(kind='mockrun', case=c))
+    # (G) one lint execution of Lifecycle.tla replayed with a mock lint: wherever the model returns a result, the real framework
+    #     must return one too (a panicking rule body or a panicking configuration of a certificate lint is reported, not raised)
+    lsum, lmism = execcommon.mock_replay(ctx, exe, ['MC_Lifecycle_export_scope'])
+    for m in lmism:
+        if m['Why'] == 'model: returns a result':
+            c = m['Case']
+            vlib.report(ctx, 'lifecycle-replay:%s:%s' % (c['kind'], c['why']), 'lint.Execute on a mock %s lint did not return a result where Lifecycle.tla does (%s): case %s; got %s' % (
+                c['kind'], c['why'], json.dumps(c), json.dumps(m['Got'])), dict(kind='mocklife', case=c))
     # (V) code -> model: whole registry (and filtered registries) x whole corpus
     d = vlib.drive(ctx, exe, 'sweep')
     ssum = json.load(open(os.path.join(d, 'summary.json')))
